@@ -77,6 +77,17 @@ CLAIMED = {
             'mvalue_to_slots/m_to_freq round-trip exactly in binary64 for |n|<=4096, m<=512.',
             'slot numbers within [-3,3] (quick) / [-6,6]; band edges on the 6.25 GHz grid; 3 ROADM sites; z3, cvc5, symx trusted',
             'DESIGN.md §2 C15'),
+    'C18': ('crosshair',
+            'CrossHair symbolic execution (z3) of the real converters on bounded symbolic documents; counterexamples replayed '
+            'un-instrumented',
+            'For each converter pair (degree targets, design bands, per-frequency loss, power ranges, nf_coef incl. YANG list order, '
+            'nf_fit_coef, raman coefficient, none<->[None], default ROADM type_variety), the namespace stripping, the integer/decimal '
+            'dispatch of convert_dict/convert_back and the Transceiver other_name expansion: back(to(d)) == d, to(to(d)) == to(d), '
+            'structure preserved, every alias reports its own name. "Confirmed over all paths" within the document bound for 8 of 13 '
+            'harnesses; the rest are time-boxed bounded bug hunting (no counterexample in 25 s / 120 s).',
+            'documents <= 2 elements, leaves <= 2-4 items, strings <= 26 chars; libyang validation, file I/O and CPython float '
+            'formatting trusted; composed legacy_to_yang/yang_to_legacy on whole files not symbolically executed',
+            'DESIGN.md §2 C18'),
     'C14': ('symx',
             'bounded symbolic execution of the real spectrum-assignment code on bitmaps of symbolic cells with z3 (inductive step '
             'over request histories); models replayed on the real code',
@@ -124,10 +135,14 @@ def manifest():
                                     '--continue-on-collection-errors',
                    source_commits=[], add_only=True),
         engines=[
-            dict(name='symx', path='symx/', serves_properties=sorted(CLAIMED),
+            dict(name='symx', path='symx/', serves_properties=sorted(k for k, v in CLAIMED.items() if 'symx' in v[0]),
                  kind_free_text='symbolic execution of the real Python/numpy code by operator overloading on numpy object arrays; '
                                 'z3 decides branch feasibility and obligations; DFS over decision prefixes by re-execution; '
                                 'solver models replayed on the float implementation'),
+            dict(name='crosshair', path='harness/c18.py', serves_properties=sorted(k for k, v in CLAIMED.items() if 'crosshair' in v[0]),
+                 kind_free_text='CrossHair 0.0.110 run per harness function (one process each), verdict parsed, counterexamples replayed'),
+            dict(name='fp-lemma', path='symx/fplemma.py', serves_properties=sorted(k for k, v in CLAIMED.items() if 'fp' in v[0]),
+                 kind_free_text='Python AST -> z3 FP/BV translation of small arithmetic kernels; QF_BVFP decided by z3 and cvc5'),
         ],
         checks=checks,
         not_applicable=na,
